@@ -141,6 +141,9 @@ type Stats struct {
 	Violations  []*Scenario    `json:"violations"`
 	ReplayFiles []string       `json:"replay_files"`
 	Machinery   string         `json:"machinery,omitempty"`
+	// SetHash is the XOR over all generated scenarios of a hash of (world, parameters): two runs with the same
+	// VERIF_SEED must report the same value (the set of scenarios is a function of the seed alone).
+	SetHash uint64 `json:"set_hash"`
 	curVec      uint64
 	curPermuted bool
 }
@@ -218,6 +221,7 @@ func (s *Stats) merge(o *Stats) {
 	s.NetRequests += o.NetRequests
 	s.PlainAgree += o.PlainAgree
 	s.EarlyStop = s.EarlyStop || o.EarlyStop
+	s.SetHash ^= o.SetHash
 	for k := range o.Distinct {
 		s.Distinct[k] = 1
 	}
@@ -336,6 +340,7 @@ func workerMain(prop *Property, build, verif, tier string, seed int64, worker, w
 		viol, nontrivial, key := prop.Eval(sc, sim)
 		stats.mu.Lock()
 		stats.Scenarios++
+		stats.SetHash ^= hash64(fmt.Sprintf("%x|%s", w.Hash(), pj))
 		stats.Worlds[w.Hash()] = 1
 		if nontrivial {
 			stats.Nontrivial++
@@ -634,6 +639,7 @@ func writeEvidence(prop *Property, verif, tier string, seed int64, s *Stats, wal
 		"simulated_time":                "not applicable as a duration: the program has no timers, sleeps, retries or deadlines; every child process sees one fixed simulated instant (clock seam), varied between the steps / alternatives of a scenario",
 		"prng_values_per_hour":          int(perHour),
 		"workers":                       workers,
+		"scenario_set_hash":             fmt.Sprintf("%016x", s.SetHash),
 		"stopped_early_by_time_cap":     s.EarlyStop,
 		"exhaustive":                    false,
 		"real_and_stub_components":      prop.RealStub,
